@@ -29,7 +29,7 @@ EXPLANATION = (
 )
 
 MANIFEST = {
-    "technique": "static analysis: case-lifted canonical terms of the generator's yield (selection consistency per case, helpers inlined), purity of the scan, shared-loader and argument-forwarding (dead/unused option) checks by parameter binding, memo-key dependence analysis; sequence-preservation of the path list and CLI option lists; finite-domain agreement of description and image shape over all axis masks; constructor state (plain fields or option objects with __call__) substituted into the scan; index/HDU consistency decided on positions (constants, negative positions, enumerate over a slice with start); class-object stores; default image-HDU search predicate evaluated for 0..5 axes; paths argument at every collection-building call site is not a sorted / de-duplicated / filtered / sliced version of the caller's list",
+    "technique": "static analysis: case-lifted canonical terms of the generator's yield (selection consistency per case, helpers inlined), purity of the scan, shared-loader and argument-forwarding (dead/unused option) checks by parameter binding, memo-key dependence analysis; sequence-preservation of the path list and CLI option lists; finite-domain agreement of description and image shape over all axis masks; constructor state (plain fields or option objects with __call__) substituted into the scan; index/HDU consistency decided on positions (constants, negative positions, enumerate over a slice with start); class-object stores; default image-HDU search predicate evaluated for 0..5 axes; paths argument at every collection-building call site is not a sorted / de-duplicated / filtered / sliced version of the caller's list; tautology check on the path conditions of the loader's yields (one item per scanned input), no early loop exit",
     "text": "Decides for every selection form (scalar, per-file list, default) that the yielded HDU is the one at the yielded index, that descriptions/images/export share one scan and build each WCS from its own item, and that user options reach the collection unchanged through the Python API and the CLI loaders.",
     "note": "Trusted: astropy.io.fits HDUList indexing and WCS(header, key=...). Not decided: what astropy reads from a given file.",
 }
